@@ -60,7 +60,7 @@ type Conn struct {
 	// LogFailedPublish: a publish refused by FailPublish is still written to the log (kind
 	// "pub", note "failed"): the attempt is an effect of the calling code.
 	LogFailedPublish bool
-	nsub, npub  int
+	nsub, npub       int
 	// OnPublish is called (outside the lock) after a publish was logged.
 	OnPublish func(Entry)
 }
